@@ -25,9 +25,9 @@ def _names_allowed(pc):
     """tag names the token can have on this path"""
     allowed = None
     for g, v in pc["guards"].items():
-        m = re.match(r"^\((?:p2\.0|tag)\.name (==|!=) atom:([\w:-]+)\)", g)
-        if m and ((m.group(1) == "==") == bool(v)):
-            s = {m.group(2)}
+        m = re.match(r"^(?:p2\.0|tag)\.name matches atom:([\w:-]+)$", g)
+        if m and v:
+            s = {m.group(1)}
             allowed = s if allowed is None else allowed & s
             continue
         if not v:
